@@ -46,6 +46,7 @@ func routerPkg(path string) string {
 }
 
 func runC17(c *core.Ctx) {
+	checkUpdateFeeRound(c)
 	// (1) confinement
 	stStorage, err := c.P.Const("core/store/common", "ST_STORAGE")
 	if err != nil {
